@@ -93,7 +93,7 @@ pub fn stream_for(m: &MDesc, class: usize, seed: u64, len: usize, n_hint: usize)
 				a.into_iter().zip(b).map(|(x, y)| if r.chance(0.15) { In::P(x as V, x as V) } else { In::P(x as V, y as V) }).collect()
 			}
 		}
-		InKind::C => gen::candles(class % 5, seed, len, n_hint).into_iter().map(In::C).collect(),
+		InKind::C => gen::candles(class % gen::CANDLE_CLASSES.len(), seed, len, n_hint).into_iter().map(In::C).collect(),
 	}
 }
 
@@ -103,7 +103,7 @@ pub fn lengths(m: &MDesc, count: usize, seed: u64) -> Vec<u64> {
 		return vec![1];
 	}
 	let lo = m.min_len.max(1);
-	let hi = if m.par == ParKind::Sz { 64 } else { m.max_len.min(if P::MAX as u64 > 255 { 400 } else { 254 }) };
+	let hi = if m.par == ParKind::Sz { 64 } else { m.max_len.min(if P::MAX as u64 > 255 { 400 } else { 255 }) };
 	let lo = if m.par == ParKind::LL && m.name != "TSI" { 2 } else { lo };
 	let mut v: Vec<u64> = vec![lo, lo + 1, lo + 2, hi, hi - 1, 7.min(hi), 14.min(hi)];
 	let mut r = Rng::new(seed ^ crate::rng::hash_str(m.name));
